@@ -57,13 +57,15 @@ def geometry(draw, method):
         b_min = draw(st.sampled_from([5.0, 6.0, 8.0]))
         return {"b_min": b_min, "b_max_x": b_min * 3, "b_max_y": b_min * 3, "property_boundary": [poly],
                 "no_go_boundaries": ngs}, (w / b_min + 1) * (h / b_min + 1) * 0.6
-    # ROWWISE: convex lot, coarse rotation sweep
-    w = draw(_f(40.0, 90.0))
-    h = draw(_f(40.0, 90.0))
+    # ROWWISE: convex lot at least three rows wide at the maximum spacing in every direction, coarse rotation sweep
+    w = draw(_f(70.0, 110.0))
+    h = draw(_f(70.0, 110.0))
     x0 = draw(st.sampled_from([5.0, 20.0]))
     y0 = draw(st.sampled_from([5.0, 20.0]))
-    poly = draw(gg.convex(x0, y0, w, h, nmin=4, nmax=8))
-    smin = draw(st.sampled_from([8.0, 10.0, 12.0]))
+    pts = draw(st.lists(st.tuples(_f(0.0, 1.0), _f(0.0, 1.0)), min_size=0, max_size=6))
+    core = [(0.15, 0.15), (0.85, 0.15), (0.85, 0.85), (0.15, 0.85)]
+    poly = [list(p) for p in gg.hull([(x0 + a * w, y0 + b * h) for a, b in core + pts])]
+    smin = draw(st.sampled_from([5.0, 6.0, 8.0]))
     return {"perimeter_spacing_ratio": draw(st.sampled_from([None, 0.8, 0.9])), "min_spacing": smin,
             "max_spacing": smin * draw(st.sampled_from([1.5, 2.0])), "spacing_step": 0.5, "min_rotation": -60.0,
             "max_rotation": draw(st.sampled_from([-30.0, 0.0, 30.0])), "rotate_step": 15.0, "property_boundary": poly,
